@@ -1015,7 +1015,11 @@ def execute(sempler, run_seed, ops, pristine_budget=4):
     obl = [st.oblig[k] for k in keys]
     if st.errstate:
         # the reference world runs under the same error state of the caller
-        obl = [dict(o, ops=[{"op": "np.seterr", "state": st.errstate}] + o["ops"]) for o in obl]
+        # ... and, for the same operations, also under numpy's default error state: where both worlds return a
+        # value it is the same value (an error state decides whether a floating-point incident raises, never which
+        # numbers come back)
+        obl = [dict(o, ops=[{"op": "np.seterr", "state": st.errstate}] + o["ops"]) for o in obl] + \
+              [dict(o, variant="pristine under the default error state", both_ok_only=True) for o in obl]
     return w, obl
 
 
@@ -1570,6 +1574,11 @@ def generate(run_seed, deep=False):
     G.bitgen_variation(st["bitgen"], ops)
     np_star_faults(st["np_star"], ops)
     giant_samples(st["giant"], gs, ops, nclients)
+    f = st["errstate"]
+    for rec in ops[:1]:
+        r, state = f.random(), f.choice([{"under": "raise"}, {"all": "raise"}, {"under": "raise", "divide": "ignore"}])
+        if rec.get("op") == "np.seterr" and r < 0.4:
+            rec["state"] = state       # stricter error states of the caller (decided after generation)
     return cfg, ops
 
 
